@@ -54,6 +54,15 @@ func NewRigoApp(config *cfg.Config, logger log.Logger) *RigoApp {
 		panic(err)
 	}
 
+	// discard what an interrupted commit may have left behind
+	lastHeight := stateDB.LastBlockHeight()
+	if lastBlockCtx := stateDB.LastBlockContext(); lastBlockCtx != nil {
+		lastHeight = lastBlockCtx.Height()
+	}
+	if err := rollbackStores(config.DBDir(), lastHeight); err != nil {
+		panic(err)
+	}
+
 	govCtrler, err := gov.NewGovCtrler(config, logger)
 	if err != nil {
 		panic(err)
